@@ -99,6 +99,14 @@ func c12Maps() []c12map {
 		{name: "hash=hsh,unique=unq", override: map[string]string{"hash": "hsh", "unique": "unq"}},
 		{name: "global zq + equal=deriveEq (override is literal)", global: "zq", override: map[string]string{"equal": "deriveEq"}},
 		{name: "global g + sort=deriveSort", global: "g", override: map[string]string{"sort": "deriveSort"}},
+		// a plugin takes over the default prefix of another plugin, which is renamed in the same run
+		{name: "equal=deriveCompare,compare=deriveOrd (takes the default of a later-registered plugin)", override: map[string]string{"equal": "deriveCompare", "compare": "deriveOrd"}},
+		{name: "compare=deriveEqual,equal=deriveSame (takes the default of an earlier-registered plugin)", override: map[string]string{"compare": "deriveEqual", "equal": "deriveSame"}},
+		{name: "equal=deriveCompare,compare=deriveEqual (swapped)", override: map[string]string{"equal": "deriveCompare", "compare": "deriveEqual"}},
+		{name: "global gen + equal=deriveCompare", global: "gen", override: map[string]string{"equal": "deriveCompare"}},
+		{name: "hash=deriveMem,mem=deriveRemember,unique=deriveHash", override: map[string]string{"hash": "deriveMem", "mem": "deriveRemember", "unique": "deriveHash"}},
+		{name: "sort=deriveSet,set=deriveBag,keys=deriveSort", override: map[string]string{"sort": "deriveSet", "set": "deriveBag", "keys": "deriveSort"}},
+		{name: "equal=eq,compare=cmp,deepcopy=dc (short prefixes sharing no letter with the longest default)", override: map[string]string{"equal": "eq", "compare": "cmp", "deepcopy": "dc"}},
 		{name: "nested equal=eq,compare=eqCmp", override: map[string]string{"equal": "eq", "compare": "eqCmp"}, nested: true},
 		{name: "nested equal=cmpEq,compare=cmp", override: map[string]string{"equal": "cmpEq", "compare": "cmp"}, nested: true},
 		{name: "nested set=deriveS,sort=deriveSo", override: map[string]string{"set": "deriveS", "sort": "deriveSo"}, nested: true},
